@@ -158,6 +158,15 @@ def eval_graph(case):
                 old.importer.delete_graph(graph_id='G')
                 old.importer.import_graph_from_string(graph_string=text, graph_id='G')
                 yield fl_ + '/reimported-old-handle', old
+            # history: node a of this graph is merged with node a of another graph of the store whose other nodes are NOT
+            # re-homed: the store now holds edges from a into that graph; queries on this graph still answer about this graph
+            if n >= 2:
+                gsh = graphs['shared']
+                try:
+                    gsh.merge_nodes(node_id=IDS[0], other_graph=NetworkXPropertyGraph(graph_id='DECOY1', importer=gsh.importer))
+                    yield 'shared/after-merge-with-neighbour-graph', gsh
+                except Exception as e:
+                    bad(f'raises/merge_nodes/{type(e).__name__}', f'merge_nodes raised {type(e).__name__}: {e}')
 
     for flavour, g in passes():
         def call(q, fn, **kw):
